@@ -193,4 +193,30 @@ def verifyNoClose (lines : List Line) (e0Ln : Int) (e0Col e0EndLn e0EndCol endLn
                else l :: restLines ((lines.drop (e0EndLn + 1)).take (endLn + 1 - (e0EndLn + 1)))
   (scanDepth o c (before ++ after).flatten 0).isSome
 
+/-! ### `parse_arg`: "is the parsed `arguments` exactly one parameter?" -/
+
+/-- what `parse_arg` looks at in the `arguments` node CPython returns for its wrapper: list lengths and presence flags
+(`kw_defaults` has one entry per keyword-only parameter, `None` entries included) -/
+structure ArgsShape where
+  posonly : Nat
+  args : Nat
+  vararg : Bool
+  kwonly : Nat
+  kwDefaults : Nat
+  kwarg : Bool
+  defaults : Nat
+deriving DecidableEq, Repr
+
+/-- result check after the normal wrapper `def f(\n{src}\n): pass`; `true` = returns `args.args[0]` -/
+def argNormalOk (s : ArgsShape) : Bool :=
+  !(s.posonly != 0 || s.vararg || s.kwonly != 0 || s.defaults != 0 || s.kwDefaults != 0 || s.kwarg || s.args != 1)
+
+/-- result check after the star wrapper `def f(*\n{src}\n): pass` (star-annotated vararg); `true` = returns `args.vararg` -/
+def argStarOk (s : ArgsShape) : Bool :=
+  !(s.posonly != 0 || s.args != 0 || s.kwonly != 0 || s.defaults != 0 || s.kwDefaults != 0 || s.kwarg) && s.vararg
+
+/-- number of parameters of the `arguments` node -/
+def nParams (s : ArgsShape) : Nat :=
+  s.posonly + s.args + (if s.vararg then 1 else 0) + s.kwonly + (if s.kwarg then 1 else 0)
+
 end Pfst.ParseWrap
